@@ -1334,9 +1334,14 @@ func (c *Conn) sendPending(id uint32) error {
 		// caller's code and may block for as long as it likes, so it does not
 		// run under the lock the read loop needs to hand window back.
 		if len(pb.body) == 0 && pb.stream != nil && !pb.drained {
+			// Taken under the lock: the read loop closes the stream and clears
+			// the field when a response or a reset ends the request early, and
+			// it may do that while this goroutine is on its way to Read.
+			stream := pb.stream
+
 			c.sendLck.Unlock()
 
-			if err := c.refillPending(pb); err != nil {
+			if err := c.refillPending(pb, stream); err != nil {
 				// The body cannot be finished, and the peer is part way
 				// through one it would otherwise wait for.
 				c.deletePending(id)
@@ -1417,7 +1422,7 @@ func (c *Conn) flushData(id uint32, body []byte, end bool) error {
 
 // refillPending pulls the next chunk of a streamed request body into the
 // body's own buffer.
-func (c *Conn) refillPending(pb *pendingBody) error {
+func (c *Conn) refillPending(pb *pendingBody, stream io.Reader) error {
 	// Read straight into the buffer the frames are cut from: going via a
 	// scratch buffer would copy every byte of the body a second time.
 	if cap(pb.buf) < int(defaultDataFrameSize) {
@@ -1426,7 +1431,7 @@ func (c *Conn) refillPending(pb *pendingBody) error {
 
 	buf := pb.buf[:defaultDataFrameSize]
 
-	n, err := pb.stream.Read(buf)
+	n, err := stream.Read(buf)
 	if n > 0 {
 		pb.body = buf[:n]
 		pb.read += int64(n)
@@ -1458,11 +1463,16 @@ func (c *Conn) refillPending(pb *pendingBody) error {
 // The caller must hold the Ctx: the Request stops being ours the moment
 // RoundTrip returns, and a caller that releases it closes the stream anyway.
 func (c *Conn) closeBodyStream(pb *pendingBody) {
-	if pb.stream == nil {
+	// sendLck is what the write loop reads the field under before it goes off
+	// to Read from the stream.
+	c.sendLck.Lock()
+	stream := pb.stream
+	pb.stream = nil
+	c.sendLck.Unlock()
+
+	if stream == nil {
 		return
 	}
-
-	pb.stream = nil
 
 	_ = pb.ctx.Request.CloseBodyStream()
 }
